@@ -62,6 +62,8 @@ def main():
     t_end = time.time() + req.get("limit_s", 60)
     failures, evals, distinct = [], 0, set()
     samples = []
+    known = req.get("known", [])  # lists of substrings: failures matching one of them are recorded findings
+    known_failures = []
     for _ in range(n):
         if time.time() > t_end:
             break
@@ -82,10 +84,16 @@ def main():
         finally:
             signal.alarm(0)
         if ok is not True:
-            failures.append({"args": jsonable(args), "ok": ok, "detail": jsonable(detail)})
+            rec = {"args": jsonable(args), "ok": ok, "detail": jsonable(detail)}
+            text = json.dumps(rec["args"], sort_keys=True) + " " + json.dumps(rec["detail"])
+            if ok is False and any(all(m in text for m in ms) for ms in known):
+                if len(known_failures) < 3:
+                    known_failures.append(rec)
+                continue
+            failures.append(rec)
             if len(failures) >= 5:
                 break
-    print(json.dumps({"ok": not failures, "evaluations": evals, "distinct": len(distinct), "failures": failures, "samples": samples}))
+    print(json.dumps({"ok": not failures, "evaluations": evals, "distinct": len(distinct), "failures": failures + known_failures, "samples": samples}))
 
 
 if __name__ == "__main__":
